@@ -36,7 +36,7 @@ FUNCTIONS = [
 ]
 BOUNDS = {
     "quick": dict(cycles="1..3 checkpoint/resume cycles", live_points=2, flags="all combinations of populated / indices empty / uninformed / mask kind (None, list, ndarray)"),
-    "thorough": dict(cycles="1..4 checkpoint/resume cycles", live_points=3, flags="all combinations of populated / indices empty / uninformed / mask kind (None, list, ndarray)"),
+    "thorough": dict(cycles="1..5 checkpoint/resume cycles", live_points=3, flags="all combinations of populated / indices empty / uninformed / mask kind (None, list, ndarray)"),
 }
 SCOPE = "Attributes are compared field by field between the writer and the restored object; symbolic values make a swapped or recomputed field visible."
 ASSUMPTIONS = [
@@ -407,7 +407,7 @@ def units(tier):
     us = []
     opts = dict()
     n = 2 if tier == "quick" else 3
-    for cycles in ((1, 2, 3) if tier == "quick" else (1, 2, 3, 4)):
+    for cycles in ((1, 2, 3) if tier == "quick" else (1, 2, 3, 4, 5)):
         us.append(Unit(f"standard[nlive={n},cycles={cycles}]", make_standard(n, cycles), MODS, opts, expect_cover=["end"],
                        mutants=["pool"] if cycles == 1 else [], twin_runs=30, witness_every=7, nproc=1, extra_patches=EXTRA))
     for slq in (False, True):
